@@ -81,11 +81,11 @@ func sameState(a, b lockState) bool {
 }
 
 type access struct {
-	fn    *ssa.Function
-	ins   ssa.Instruction
-	g     *guard
-	write bool
-	held  int
+	fn      *ssa.Function
+	ins     ssa.Instruction
+	g       *guard
+	write   bool
+	held    int
 	logOnly bool
 }
 
@@ -107,6 +107,7 @@ type lckEngine struct {
 	// state at each instruction, recomputed per function on demand
 	closureEntry map[*ssa.Function]lockState
 	goClosure    map[*ssa.Function]bool
+	localHelper  map[*ssa.Function]bool
 }
 
 var syncLockOps = map[string]int{
@@ -138,9 +139,40 @@ func lockClassOf(v ssa.Value, fn *ssa.Function) string {
 	return ""
 }
 
+// classOf is lockClassOf, but a mutex received as a parameter is named after the mutex every
+// static caller passes (when they all agree), so helpers like recordAuthFailure(…, &mu, …)
+// lock the same class as their callers.
+func (e *lckEngine) classOf(v ssa.Value, fn *ssa.Function, depth int) string {
+	if p, ok := v.(*ssa.Parameter); ok && depth < 4 {
+		idx := -1
+		for i, q := range fn.Params {
+			if q == p {
+				idx = i
+			}
+		}
+		agreed := ""
+		for _, cs := range e.callers[fn] {
+			args := cs.Common().Args
+			if idx < 0 || idx >= len(args) {
+				return lockClassOf(v, fn)
+			}
+			cl := e.classOf(args[idx], cs.Parent(), depth+1)
+			if agreed == "" {
+				agreed = cl
+			} else if agreed != cl {
+				return lockClassOf(v, fn)
+			}
+		}
+		if agreed != "" {
+			return agreed
+		}
+	}
+	return lockClassOf(v, fn)
+}
+
 func newLck(c *Ctx, cfg *lckConfig) *lckEngine {
 	e := &lckEngine{c: c, cfg: cfg, gmap: map[string]*guard{}, sum: map[*ssa.Function]*fnSummary{},
-		callers: map[*ssa.Function][]ssa.CallInstruction{}, closureEntry: map[*ssa.Function]lockState{}, goClosure: map[*ssa.Function]bool{}}
+		callers: map[*ssa.Function][]ssa.CallInstruction{}, closureEntry: map[*ssa.Function]lockState{}, goClosure: map[*ssa.Function]bool{}, localHelper: map[*ssa.Function]bool{}}
 	for i := range cfg.guards {
 		g := &cfg.guards[i]
 		e.gmap[g.typ+"."+g.field] = g
@@ -153,14 +185,134 @@ func newLck(c *Ctx, cfg *lckConfig) *lckEngine {
 	}
 	for _, f := range e.funcs {
 		eachCall(f, func(call ssa.CallInstruction) {
-			if cal := staticFn(call); cal != nil {
+			if cal := e.callee(call); cal != nil {
 				if _, ok := e.sum[cal]; ok {
 					e.callers[cal] = append(e.callers[cal], call)
 				}
 			}
 		})
 	}
+	// closures whose every use is a resolved call are helpers, not roots
+	for _, f := range e.funcs {
+		eachInstr(f, func(_ *ssa.BasicBlock, _ int, ins ssa.Instruction) {
+			mc, ok := ins.(*ssa.MakeClosure)
+			if !ok {
+				return
+			}
+			cf := mc.Fn.(*ssa.Function)
+			if closureOnlyCalled(mc) && len(e.callers[cf]) > 0 {
+				e.localHelper[cf] = true
+			}
+		})
+	}
 	return e
+}
+
+// callee resolves static callees and calls through a local variable bound once to a closure
+// (`helper := func(){…}; …; helper()` including calls from sibling closures via free variables).
+func (e *lckEngine) callee(call ssa.CallInstruction) *ssa.Function {
+	if f := staticFn(call); f != nil {
+		return f
+	}
+	if call.Common().IsInvoke() {
+		return nil
+	}
+	return resolveFuncValue(call.Common().Value, call.Parent(), 0)
+}
+
+func resolveFuncValue(v ssa.Value, fn *ssa.Function, depth int) *ssa.Function {
+	if depth > 5 {
+		return nil
+	}
+	switch x := v.(type) {
+	case *ssa.MakeClosure:
+		return x.Fn.(*ssa.Function)
+	case *ssa.Function:
+		return x
+	case *ssa.UnOp:
+		if x.Op == token.MUL {
+			return resolveFuncValue(x.X, fn, depth+1)
+		}
+	case *ssa.Alloc:
+		var found *ssa.Function
+		n := 0
+		for _, r := range refs(x) {
+			if st, ok := r.(*ssa.Store); ok && st.Addr == ssa.Value(x) {
+				n++
+				found = resolveFuncValue(st.Val, fn, depth+1)
+			}
+		}
+		if n == 1 {
+			return found
+		}
+	case *ssa.FreeVar:
+		par := fn.Parent()
+		if par == nil {
+			return nil
+		}
+		idx := -1
+		for i, fv := range fn.FreeVars {
+			if fv == x {
+				idx = i
+			}
+		}
+		var res *ssa.Function
+		eachInstr(par, func(_ *ssa.BasicBlock, _ int, ins ssa.Instruction) {
+			if mc, ok := ins.(*ssa.MakeClosure); ok && mc.Fn == ssa.Value(fn) && idx >= 0 && idx < len(mc.Bindings) {
+				res = resolveFuncValue(mc.Bindings[idx], par, depth+1)
+			}
+		})
+		return res
+	}
+	return nil
+}
+
+// closureOnlyCalled: the closure value is only stored into one local variable that is itself only
+// loaded-and-called or captured by closures (no escape as argument / return / field / go).
+func closureOnlyCalled(mc *ssa.MakeClosure) bool {
+	var okVal func(v ssa.Value, depth int) bool
+	okVal = func(v ssa.Value, depth int) bool {
+		if depth > 5 {
+			return false
+		}
+		for _, r := range refs(v) {
+			switch u := r.(type) {
+			case *ssa.DebugRef:
+			case *ssa.Store:
+				if u.Val != v {
+					continue
+				}
+				al, ok := u.Addr.(*ssa.Alloc)
+				if !ok || !okVal(al, depth+1) {
+					return false
+				}
+			case *ssa.UnOp:
+				if u.Op != token.MUL || !okVal(u, depth+1) {
+					return false
+				}
+			case *ssa.MakeClosure:
+				// captured by another closure: check the corresponding free variable's uses
+				cf := u.Fn.(*ssa.Function)
+				for i, b := range u.Bindings {
+					if b == v && i < len(cf.FreeVars) && !okVal(cf.FreeVars[i], depth+1) {
+						return false
+					}
+				}
+			case *ssa.Call:
+				if u.Call.Value != v {
+					return false
+				}
+			case *ssa.Defer:
+				if u.Call.Value != v {
+					return false
+				}
+			default:
+				return false
+			}
+		}
+		return true
+	}
+	return okVal(mc, 0)
 }
 
 // transfer applies instruction ins to state s; reports guarded accesses via visit (may be nil).
@@ -171,7 +323,7 @@ func (e *lckEngine) transfer(fn *ssa.Function, s lockState, ins ssa.Instruction,
 	}
 	name := callName(call)
 	if d, ok := syncLockOps[strings.TrimPrefix(name, "")]; ok && len(call.Common().Args) > 0 {
-		cls := lockClassOf(call.Common().Args[0], fn)
+		cls := e.classOf(call.Common().Args[0], fn, 0)
 		if cls == "" {
 			return
 		}
@@ -200,7 +352,7 @@ func (e *lckEngine) transfer(fn *ssa.Function, s lockState, ins ssa.Instruction,
 	if _, isDefer := ins.(*ssa.Defer); isDefer {
 		return
 	}
-	if cal := staticFn(call); cal != nil {
+	if cal := e.callee(call); cal != nil {
 		if cs, ok := e.sum[cal]; ok {
 			for cls := range cs.releases {
 				delete(s, cls)
@@ -222,7 +374,7 @@ func (e *lckEngine) analyse(fn *ssa.Function) (map[ssa.Instruction]lockState, ma
 			entry[k] = v
 		}
 	}
-	if ce, ok := e.closureEntry[fn]; ok && !e.goClosure[fn] {
+	if ce, ok := e.closureEntry[fn]; ok && !e.goClosure[fn] && !e.localHelper[fn] {
 		for k, v := range ce {
 			entry[k] = v
 		}
@@ -310,6 +462,10 @@ func isFreshAlloc(v ssa.Value) bool {
 	}
 }
 
+var purePass = map[string]bool{
+	"time.Time.Sub": true, "time.Duration.Round": true, "time.Duration.String": true, "time.Duration.Seconds": true, "time.Time.String": true,
+}
+
 var logSinks = map[string]bool{
 	"log.Printf": true, "log.Println": true, "log.Print": true, "fmt.Printf": true, "fmt.Println": true, "fmt.Print": true,
 	"log.Logger.Printf": true, "log.Logger.Println": true,
@@ -359,8 +515,8 @@ func onlyLogged(v ssa.Value, depth int) bool {
 			}
 		case ssa.CallInstruction:
 			if !logSinks[callName(x)] {
-				// len(v) whose result is only logged
-				if callName(x) == "builtin.len" {
+				// len(v) / pure time arithmetic whose result is only logged
+				if callName(x) == "builtin.len" || purePass[callName(x)] {
 					if val, ok := x.(ssa.Value); ok && onlyLogged(val, depth+1) {
 						continue
 					}
@@ -379,6 +535,40 @@ func (e *lckEngine) accesses(fn *ssa.Function) []*access {
 	var out []*access
 	add := func(ins ssa.Instruction, g *guard, write bool, logOnly bool) {
 		out = append(out, &access{fn: fn, ins: ins, g: g, write: write, logOnly: logOnly})
+	}
+	// guarded local variables (captured by closures): typ "local:<outer fnKey>", field = variable name.
+	// Accesses in the outermost function itself are construction-time and exempt.
+	if fn.Parent() != nil {
+		top := "local:" + fnKey(topParent(fn))
+		seenVar := map[ssa.Value]bool{}
+		eachInstr(fn, func(_ *ssa.BasicBlock, _ int, ins ssa.Instruction) {
+			for _, op := range ins.Operands(nil) {
+				var name string
+				switch x := (*op).(type) {
+				case *ssa.FreeVar:
+					name = x.Name()
+				default:
+					continue
+				}
+				g := e.gmap[top+"."+name]
+				if g == nil || seenVar[*op] {
+					continue
+				}
+				seenVar[*op] = true
+				for _, r := range refs(*op) {
+					switch u := r.(type) {
+					case *ssa.Store:
+						if u.Addr == *op {
+							add(u, g, true, false)
+						}
+					case *ssa.UnOp:
+						if u.Op == token.MUL {
+							e.usesOfLoaded(fn, u, g, add, 0)
+						}
+					}
+				}
+			}
+		})
 	}
 	eachInstr(fn, func(_ *ssa.BasicBlock, _ int, ins ssa.Instruction) {
 		var fa ssa.Value
@@ -717,6 +907,9 @@ func (e *lckEngine) run() {
 		if f.Parent() != nil {
 			if e.goClosure[f] {
 				return true, "goroutine closure"
+			}
+			if e.localHelper[f] {
+				return false, ""
 			}
 			return true, "closure"
 		}
